@@ -1661,6 +1661,12 @@ pub struct RunOut {
 /// Runs a whole history on flavour `A`.
 pub fn run_history<A: Flavor>(cfg: &Cfg, ops: &[Op], mode: Mode) -> RunOut {
     crate::types::reset_drops();
+    let mut mode = mode;
+    if A::SYNC && mode.budget.is_none() {
+        // a single thread that makes this many consecutive atomic accesses without changing anything is
+        // in a loop it can never leave: turn the hang into a reported failure
+        mode.budget = Some(50_000);
+    }
     let want_mem = mode.trace;
     let mut w = match World::<A>::new(cfg, mode) {
         Ok(Some(w)) => w,
